@@ -37,17 +37,29 @@ LEAN_EXES = ["model_c20"]
 REQUIRED_THEOREMS = [
     "TapkeeVerif.Cli.wiring_correct",
     "TapkeeVerif.Cli.every_param_option_wired",
-    "TapkeeVerif.Cli.defaults_follow_library_doc",
-    "TapkeeVerif.Cli.guards_exact",
-    "TapkeeVerif.Cli.defaults_faithful",
-    "TapkeeVerif.Cli.one_sample_per_line",
-    "TapkeeVerif.Cli.data_path_is_spec",
+    "TapkeeVerif.Cli.options_match_spec",
     "TapkeeVerif.Cli.every_library_keyword_reachable_or_listed",
     "TapkeeVerif.Cli.name_maps_correct",
+    "TapkeeVerif.Cli.named_defaults_are_valid",
     "TapkeeVerif.Cli.guards_present",
+    "TapkeeVerif.Cli.guards_exact",
+    "TapkeeVerif.Cli.main_catches_everything",
+    "TapkeeVerif.Cli.defaults_follow_library_doc",
+    "TapkeeVerif.Cli.defaults_faithful",
+    "TapkeeVerif.Cli.data_path_is_spec",
+    "TapkeeVerif.Cli.condition_tables_sound",
+    "TapkeeVerif.Cli.streams_opened_first",
     "TapkeeVerif.Cli.shape",
+    "TapkeeVerif.Cli.shape_transposed",
     "TapkeeVerif.Cli.read_write_roundtrip",
+    "TapkeeVerif.Cli.read_write_roundtrip_gen",
+    "TapkeeVerif.Cli.read_write_empty",
+    "TapkeeVerif.Cli.ragged_rows_rejected",
     "TapkeeVerif.Cli.transpose_input_semantics",
+    "TapkeeVerif.Cli.one_sample_per_line",
+    "TapkeeVerif.Cli.unterminated_last_line_duplicated",
+    "TapkeeVerif.Cli.one_sample_per_line_terminated",
+    "TapkeeVerif.Cli.nameMaps_distinct",
     "TapkeeVerif.Cli.bad_inputs_exit_nonzero",
     "TapkeeVerif.Cli.projection_files",
     "TapkeeVerif.Cli.precompute_same_params",
@@ -119,9 +131,19 @@ def read_spec():
     spec["mirrors"] = re.findall(r'"([^"]+)"', m.group(1)) if m else []
     m = re.search(r"def specUnreachable : List String := \[([^\]]*)\]", src)
     spec["unreachable"] = re.findall(r'"([^"]+)"', m.group(1)) if m else []
-    if len(spec["options"]) < 20 or len(spec["names"]) < 30:
-        raise ValueError("spec tables of Props/C20.lean could not be read (%d options, %d names)"
-                         % (len(spec["options"]), len(spec["names"])))
+    # every row of the Lean tables must have been matched: count the rows textually (`option :=` / `("` inside the two
+    # definitions) and compare with what the regexes produced, so that a row in a layout they do not match cannot silently
+    # leave the Python spec smaller than the Lean spec
+    def block(name):
+        m = re.search(r"def %s\b[^\n]*:= \[(.*?)\n\]" % name, src, re.S)
+        return m.group(1) if m else ""
+    n_opt = len(re.findall(r"option\s*:=", block("specOptions")))
+    n_names = len(re.findall(r"\(\s*\"", block("specNames")))
+    if n_opt == 0 or n_names == 0 or n_opt != len(spec["options"]) or n_names != len(spec["names"]):
+        raise ValueError("spec tables of Props/C20.lean not fully read: %d of %d option rows, %d of %d name rows"
+                         % (len(spec["options"]), n_opt, len(spec["names"]), n_names))
+    if not spec["mirrors"] or not spec["unreachable"]:
+        raise ValueError("specMirrorsLibrary / specUnreachable of Props/C20.lean could not be read")
     return spec
 
 
@@ -389,7 +411,7 @@ SAFE_EXTRA = {
 
 # non-default, valid values used when an option is varied (text, spelling)
 VARY = {
-    "target-dimension": ["1", "3"], "num-neighbors": ["7", "12"], "gaussian-width": ["2.5", "0.125"],
+    "target-dimension": ["1", "3"], "num-neighbors": ["7", "12"], "gaussian-width": ["2.5", "12.5"],
     "timesteps": ["2", "3"], "eigenshift": ["0.001", "1e-7"], "landmark-ratio": ["0.5", "0.8"],
     "spe-tolerance": ["0.001", "1e-7"], "spe-num-updates": ["5", "20"], "max-iters": ["2", "7"],
     "fa-epsilon": ["0.01", "1e-7"], "sne-perplexity": ["3", "2.5"], "sne-theta": ["0", "0.25"],
@@ -456,6 +478,20 @@ def gen_cases(env, r, quick):
                     cases.append(Case("flag:%s*%d:%s" % (opt, n, meth),
                                       base_opts(meth, extra(ident) + [(opt, None, "long")] * n + [("debug", None, "long")]),
                                       data_txt, intended=data, tags={"embed", "option"}, varied=(opt, n)))
+    # 3b. full double precision and range: a value option must reach the library as the double the text denotes.  The echo
+    # prints 6 significant digits, so a value rounded to float is invisible there unless it leaves float's RANGE: 1e-50 (float:
+    # 0), 1e+39 (float: inf / rejected); plus a 10-digit value, and a landmark ratio whose float rounding (0.499999999 -> 0.5)
+    # changes the number of landmarks (22 * ratio: 10 vs 11) and thereby the embedding.  pca ignores all these keywords, so the
+    # run itself is unaffected and only the wiring is observed.
+    for opt, role in spec["options"].items():
+        if role[0] == "param" and role[2] == "value" and role[3] == "dbl":
+            for val in ["1e-50", "0.1234567891"] + (["1e+39"] if opt in ("gaussian-width", "sne-perplexity") else []):
+                cases.append(Case("precision:%s=%s" % (opt, val), base_opts("pca", [(opt, val, "eq"), ("debug", None, "long")]),
+                                  data_txt, intended=data, tags={"embed", "option", "precision"}, varied=(opt, val)))
+    for meth in ("l-mds", "l-isomap"):
+        cases.append(Case("precision:landmark-ratio=0.499999999:%s" % meth,
+                          base_opts(meth, [("landmark-ratio", "0.499999999", "eq"), ("debug", None, "long")]),
+                          data_txt, intended=data, tags={"embed", "option", "precision"}, varied=("landmark-ratio", "0.499999999")))
     # 4. --precompute changes nothing: every method (canonical name), with and without
     for ident, k in sorted(canon_name.items()):
         for pre in (False, True):
@@ -727,6 +763,19 @@ def judge(ctx, env, cases, use_model=True):
     with concurrent.futures.ThreadPoolExecutor(max_workers=16) as ex:
         acts = list(ex.map(lambda c: run_cli(env, c), cases))
     ctx.log("stage 4 (%d CLI runs) done" % len(cases))
+    # a run that hit the time limit while 16 ran in parallel is repeated once, alone, with twice the limit, before it is
+    # believed (a thrashing machine is not a property of the CLI)
+    for k, (c, a) in enumerate(zip(cases, acts)):
+        if a["abort"] == "timeout":
+            ctx.stat("timeout-retried")
+            saved = env.timeout
+            env.timeout = 2 * saved
+            try:
+                acts[k] = run_cli(env, c)
+            finally:
+                env.timeout = saved
+            if acts[k]["abort"] != "timeout":
+                ctx.stat("timeout-retried-ok")
     # stage 5: compare + oracles
     by_group = {}
     for i, (c, plan, lr, exp, act) in enumerate(zip(cases, plans, libres, expects, acts)):
@@ -740,7 +789,7 @@ def judge(ctx, env, cases, use_model=True):
             continue
         (c0, a0, l0), (c1, a1, l1) = sorted(members, key=lambda m: m[0].count("precompute"))
         ident = method_ident(env, c0)
-        shape_only = ident in RANDOMISED_METHODS or bool(c0.randomised) or bool(c1.randomised)
+        shape_only = (not env.pinned) and (ident in RANDOMISED_METHODS or bool(c0.randomised) or bool(c1.randomised))
         ctx.stat("precompute-pairs")
         if a1["abort"] and not a0["abort"]:
             continue    # reported by judge_one as an abort
@@ -771,8 +820,10 @@ def judge_one(ctx, env, c, plan, lr, exp, act):
     em = c.opt("eigen-method")
     em_ident = dict((k, v) for m, k, v in env.spec["names"] if m == "EIGEN_METHODS").get(em[1]) if em else "Dense"
     # measured by the harness (did the library call consume std::rand()?); the static lists are the fallback
-    randomised = c.randomised if c.randomised is not None else (ident in RANDOMISED_METHODS or em_ident in RANDOMISED_EIGEN)
-    ctx.stat("compared-on-shape-only" if randomised else "compared-on-content")
+    draws = c.randomised if c.randomised is not None else (ident in RANDOMISED_METHODS or em_ident in RANDOMISED_EIGEN)
+    # with the seed pinned (build()) the CLI draws the same std::rand() sequence as the harness: content comparison throughout
+    randomised = draws and not env.pinned
+    ctx.stat("compared-on-shape-only" if randomised else "compared-on-content-seed-pinned" if draws else "compared-on-content")
     reached = bool(plan and plan["why"] == "library: STOP")
     nontrivial = reached or "bad" in c.tags or "malformed" in c.tags
     ctx.count(c.key(), nontrivial)
@@ -816,6 +867,10 @@ def judge_one(ctx, env, c, plan, lr, exp, act):
                      % (lr[6:], " ".join(D["argv"])), case=D, detail={"harness": lr, "stderr": getattr(ctx, "last_abort_stderr", "")[-1200:]})
         elif "no-final-newline" in c.tags or (c.file is not None and c.file and not c.file.endswith("\n")):
             pass        # judged below by the line-count oracle
+        elif act["rc"] != 0 and exp["exit"] == 0 and "precision" in c.tags and c.varied:
+            ctx.fail("wiring:%s" % c.varied[0], "--%s=%s is a valid double but the CLI exits %d (%s)"
+                     % (c.varied[0], c.varied[1], act["rc"], small(act["stderr"].strip(), 120)), case=D,
+                     detail={"stderr": act["stderr"][-600:]})
         elif act["rc"] != 0 and exp["exit"] == 0 and c.intended is not None and want is None and lr and lr.startswith("ok|"):
             # property oracle: a well-formed file (the generator knows the matrix it spells) with valid options, which the
             # library embeds, must be embedded by the CLI too
@@ -1043,13 +1098,33 @@ def number_contract(ctx, env):
 
 
 # ----------------------------------------------------------------------------------------------- entry points
+PIN_HEADER = os.path.join(vlib.ROOT, "harness", "c20_pin_seed.hpp")
+
+
 def build(ctx, env):
+    """the CLI (with the seed of run()'s srand(time(NULL)) pinned to the harness' seed by a force-included header, see
+    harness/c20_pin_seed.hpp) and the library harness, in parallel; if the pinned build does not compile the unpinned CLI is
+    built and randomised methods fall back to shape-only comparison"""
+    import hashlib
+    full = ctx.tier != "quick"
+    pin = ["-include", PIN_HEADER, "-DC20_PIN_HEADER=%s" % hashlib.sha256(open(PIN_HEADER, "rb").read()).hexdigest()[:12]]
+    env.cli_flags = _flags(full) + pin
+    env.lib_flags = _flags(full, sanitize=full)
+    main_cpp = os.path.join(vlib.REPO, "src", "cli", "main.cpp")
     with concurrent.futures.ThreadPoolExecutor(max_workers=2) as ex:
-        full = ctx.tier != "quick"
-        f1 = ex.submit(ctx.build_harness, os.path.join(vlib.REPO, "src", "cli", "main.cpp"), "c20_cli", (), _flags(full))
-        f2 = ex.submit(ctx.build_harness, "c20_lib.cpp", None, (), _flags(full, sanitize=full))
+        f1 = ex.submit(ctx.build_harness, main_cpp, "c20_cli", (), env.cli_flags)
+        f2 = ex.submit(ctx.build_harness, "c20_lib.cpp", None, (), env.lib_flags)
         env.cli, log1 = f1.result()
         env.lib, log2 = f2.result()
+    env.pinned = bool(env.cli)
+    if not env.cli:
+        env.cli_flags = _flags(full)
+        env.cli, log1b = ctx.build_harness(main_cpp, "c20_cli", (), env.cli_flags)
+        if env.cli:
+            ctx.log("CLI does not compile with the pinned seed (%s); built unpinned: randomised methods shape-only" % log1[-200:])
+            ctx.stat("seed-pin-unavailable")
+        else:
+            log1 = log1b
     if not env.cli:
         ctx.broken("cli-build", "build of src/cli/main.cpp", "the CLI does not compile from the working tree: " + log1[-800:])
     if not env.lib:
@@ -1071,7 +1146,11 @@ def make_env(ctx):
 
 
 def correspond(ctx, use_model=True):
-    env = make_env(ctx)
+    try:
+        env = make_env(ctx)
+    except ValueError as ex:
+        ctx.broken("spec-read", "checks/c20.py read_spec (rows of the spec tables of Props/C20.lean)", str(ex))
+        return
     if env.T is None:
         ctx.log("no tables (translator failed): nothing to enumerate cases from")
         return
@@ -1081,6 +1160,12 @@ def correspond(ctx, use_model=True):
     try:
         quick = ctx.tier == "quick"
         env.help_defaults = help_defaults(env)
+        nvalue = len([o for o in env.T["options"] if o["hasValue"]])
+        if len(env.help_defaults) < nvalue:
+            ctx.broken("corr:help-defaults", "correspondence c20 (`(default: …)` entries of the usage text)",
+                       "only %d of the %d options that take a value have a `(default: …)` entry that could be read from `--help`: "
+                       "the --help reference of the defaults oracle would be skipped" % (len(env.help_defaults), nvalue),
+                       detail={"read": env.help_defaults})
         if getattr(ctx, "replay", None) and isinstance(ctx.replay.get("case"), dict) and "argv" in ctx.replay["case"]:
             cases = [case_from_replay(env, ctx.replay["case"])]
         else:
@@ -1101,8 +1186,10 @@ def correspond(ctx, use_model=True):
                        "{plain, blank lines, CRLF, trailing delimiter, no final newline} plus 14 malformed files; "
                        "non-trivial = reaches embed() or exercises a guard / malformed input; distinct by case text")
     ctx.assumptions += [
-        "randomised methods (RandomProjection, SPE, t-SNE, ManifoldSculpting, eigen-method randomized) are compared on exit status "
-        "and output SHAPE only: run() calls srand(time(NULL)), a seeded comparison is impossible",
+        "methods that draw from std::rand() (measured per library call by the harness: RandomProjection, SPE, t-SNE, ManifoldSculpting, "
+        "FactorAnalysis, eigen-method randomized) are compared on CONTENT because the CLI under test is built with "
+        "harness/c20_pin_seed.hpp force-included, which turns run()'s srand(time(NULL)) into srand(20240607u), the seed the "
+        "harness sets before its embed call; only if that build fails are they compared on exit status and shape",
         "number contract: the model keeps exact decimals; printed numbers are compared as exact decimals, identical text counted "
         "separately (files-identical) from agreement within one unit of the sixth significant digit (files-approx)",
         "OMP_NUM_THREADS=1 for the CLI and the harness (thread-count independence is C15's subject)",
@@ -1110,7 +1197,7 @@ def correspond(ctx, use_model=True):
         "ManifoldSculpting is always run with --max-iters 3 and t-SNE with --sne-perplexity 2 (22 samples); with the CLI default "
         "--max-iters 1000 ManifoldSculpting did not finish within 20 minutes on 20 points under ASan (not a C20 matter)",
     ]
-    ctx.extra["c20"] = {"cli_flags": "vlib.HARNESS_FLAGS", "defines": env.T["defines"]}
+    ctx.extra["c20"] = {"cli_flags": env.cli_flags, "harness_flags": env.lib_flags, "defines": env.T["defines"]}
 
 
 def help_defaults(env):
